@@ -158,6 +158,8 @@ def pairs(seed, n):
           ("%Y\f%m", "2020\t05"), ("%Z", "A\x0bB"), ("%Z %Y", "A\x0c2020"),
           ("%H %Ez:%M", "10 +01:5"), ("%H:%M %E*z:%S", "10:00 +01:02:7"), ("%H %z:%M", "10 +01:5"), ("%H %Ez:%M", "10 +01:05"), ("%H %Ez %M", "10 +01: 5"),
           ("%H %E*z", "10 +01:02:"), ("%H %Ez", "10 +01:"), ("%H%Ez:", "10+01:"), ("%H %Ezx", "10 +01:3x"),
+          ("%Y %U %a", "2017 01 Sun"), ("%Y %W %a", "2018 53 Mon"), ("%Y-W%U-%a %H:%M:%S", "2021-W10-Tue 08:30:15"), ("%A, week %U of %Y", "Friday, week 00 of 2024"),
+          ("%a %U %Y", "Sat 52 2022"), ("%Y %W %A", "2024 01 Monday"), ("%Y %U %a", "2023 00 Sun"), ("%Y %U %a", "2023 01 Sun"), ("%Y %W %a %u", "2018 11 Wed 3"),
           ("%Z %z", "UTC +0100"), ("%z %Z", "+0100 PST"), ("%Z", "Europe/Paris"), ("%Z", "A B")]
     out += [(a.encode(), b.encode()) for a, b in D]
     for _ in range(n // 10):     # unstructured pairs
